@@ -13,7 +13,7 @@ static std::vector<AssignLine> line_pool() {
   v.push_back(L("+joe-list-:lists:600:601:/home/lists:-:l-:", true, "joe-list-", "lists", 600, 601, "/home/lists", "-", "l-"));
   v.push_back(L("+:alias:7790:2108:/var/qmail/alias:-::", true, "", "alias", 7790, 2108, "/var/qmail/alias", "-", ""));
   v.push_back(L("=joe.shmoe:second:888:889:/home/second:::", false, "joe.shmoe", "second", 888, 889, "/home/second", "", ""));   // duplicate key: first wins
-  v.push_back(L("=Info:Mixed:510:511:/home/mixed:::", false, "Info", "Mixed", 510, 511, "/home/mixed", "", ""));
+  v.push_back(L("=InfoZ:Mixed:510:511:/home/mixed:::", false, "InfoZ", "Mixed", 510, 511, "/home/mixed", "", ""));   // mixed case with the boundary letter Z
   v.push_back(L("=rooty:root:0:0:/root:::", false, "rooty", "root", 0, 0, "/root", "", ""));
   v.push_back(L("+joe=:eq:520:521:/home/eq:=:e:", true, "joe=", "eq", 520, 521, "/home/eq", "=", "e"));                            // a second break character
   v.push_back(L("+JO:big:530:531:/home/big:-:J:", true, "JO", "big", 530, 531, "/home/big", "-", "J"));                             // mixed-case wildcard
@@ -39,7 +39,7 @@ struct C11 : Scenario {
     auto U = [&](const std::string &n, int uid, int gid, const std::string &home, int homeowner) { k.passwd.push_back({n, uid, gid, home}); if (homeowner >= 0) k.mkdir_p(home, 0755, homeowner, gid); };
     U("joe", 507, 100, "/home/joe", 507); U("bob", 508, 100, "/home/bob", 0 /* home not owned by bob */); U("nohome", 509, 100, "/home/nohome", -1);
     U("toor", 0, 0, "/toor", 0); U("mixed", 510, 511, "/home/mixed", 510); U("n" + std::string(30, 'a'), 600, 601, "/home/t31", 600); U("m" + std::string(31, 'b'), 602, 603, "/home/t32", 602); U("k" + std::string(29, 'c'), 604, 605, "/home/t30", 604);
-    U("joe-sub", 610, 611, "/home/joesub", 610);
+    U("joe-sub", 610, 611, "/home/joesub", 610); U("zaz", 620, 621, "/home/zaz", 620);
     k.put_file(QmailEnv::messpath(123), "Subject: x\n\nbody\n", 0644, UID_QMAILQ, GID_QMAIL);
     w.exectab["/var/qmail/bin/qmail-local"] = "@qmail-local";
     auto pool = line_pool();
@@ -58,8 +58,8 @@ struct C11 : Scenario {
       for (int i : {0, 1, 3}) { table.push_back(pool[i]); tabname += (tabname.empty() ? "" : " ; ") + pool[i].text; }
       write_assign(w); run_newu(w);
     }
-    locals = {"joe.shmoe", "JOE.Shmoe", "joe.shmoex", "joe", "Joe", "joe-direct", "joe-list-foo", "JOE-LIST-Bar", "joe-list", "joe=x", "joex", "jo", "Johan", "bill", "", "info", "INFO", "rooty", "root", "toor", "toor-x",
-              "bob", "bob-ext", "nohome", "mixed", "Mixed-Case", "n" + std::string(30, 'a'), "n" + std::string(30, 'a') + "-x", "N" + std::string(30, 'A'), "m" + std::string(31, 'b'), "m" + std::string(31, 'b') + "-y", "k" + std::string(29, 'c'), "k" + std::string(29, 'c') + "-z", "joe-sub", "joe-sub-x", "joe-", "-joe", "alias", "a.b-c"};
+    locals = {"joe.shmoe", "JOE.Shmoe", "joe.shmoex", "joe", "Joe", "joe-direct", "joe-list-foo", "JOE-LIST-Bar", "joe-list", "joe=x", "joex", "jo", "Johan", "bill", "", "infoz", "INFOZ", "InfoZ", "info", "rooty", "root", "toor", "toor-x",
+              "bob", "bob-ext", "nohome", "mixed", "Mixed-Case", "n" + std::string(30, 'a'), "n" + std::string(30, 'a') + "-x", "N" + std::string(30, 'A'), "m" + std::string(31, 'b'), "m" + std::string(31, 'b') + "-y", "k" + std::string(29, 'c'), "k" + std::string(29, 'c') + "-z", "joe-sub", "joe-sub-x", "joe-", "-joe", "alias", "a.b-c", "zaz", "ZAZ", "Zaz-Ext", "zaZ-"};
   }
   void write_assign(World &w) { std::string a; for (auto &l : table) a += l.text + "\n"; a += ".\n"; w.k.put_file("/var/qmail/users/assign", a); }
   void run_newu(World &w) { std::map<int, int> fds; fds[0] = QmailEnv::nullfd(w); fds[1] = QmailEnv::sink(w); fds[2] = QmailEnv::sink(w); newupid = w.spawn("/var/qmail/bin/qmail-newu", {"qmail-newu"}, fds, 0, 0, "/"); }
